@@ -73,6 +73,11 @@ def programs(tier, rnd):
                    lo=[0, -1, None], hi=[None, 2, 3]))
     ps.append(dict(name='lp-infeasible', kind='lp', n=2, vt='C', c=[1, 1], rows=[([1, 1], 'le', -1)], lo=[0, 0], hi=[None, None]))
     ps.append(dict(name='lp-unbounded', kind='lp', n=2, vt='C', c=[-1, 0], rows=[([1, -1], 'le', 1)], lo=[0, 0], hi=[None, None]))
+    # unbounded along an integer ray: heuristics of a MIP solver find incumbents before the ray is proven
+    ps.append(dict(name='milp-unbounded-ray', kind='milp', n=2, vt='I', c=[1, -1], rows=[([1, -2], 'le', 4)], lo=[0, 0],
+                   hi=[None, None], integer_ray=True))
+    ps.append(dict(name='milp-unbounded-ray-mixed', kind='milp', n=3, vt='M', c=[-1, -1, 0.5], rows=[([1, -1, 1], 'le', 2)],
+                   lo=[0, 0, None], hi=[None, None, None], integer_ray=True))
     ps.append(dict(name='milp-infeasible', kind='milp', n=2, vt='I', c=[1, 1], rows=[([2, 2], 'eq', 3)], lo=[0, 0], hi=[5, 5]))
     ps.append(dict(name='soc-basic', kind='soc', k=0))
     ps.append(dict(name='soc-two-cones', kind='soc', k=1))
@@ -165,7 +170,12 @@ def run_case(case, ses):
     obj = P.obj_term(vs)
     # exact status
     if not P.qmat:
-        status, opt = ses.optimum(Pc, obj, label=name + '/exact', ints=P.int_vars(vs))
+        if p.get('integer_ray'):
+            # unbounded along an INTEGER direction (enumeration of better points would not end): z3 certificate = a feasible
+            # point and an integral recession direction that improves the objective
+            status, opt = unbounded_certificate(ses, P, vs, Pc, name), None
+        else:
+            status, opt = ses.optimum(Pc, obj, label=name + '/exact', ints=P.int_vars(vs))
     else:
         r, _ = ses.solve(Pc, label=name + '/feas')
         status, opt = ('infeasible', None) if r == 'unsat' else ('optimal?', None)
@@ -174,6 +184,25 @@ def run_case(case, ses):
             continue
         for display in ((False, True) if iface == 'default' and ses.tier == 'thorough' else (False,)):
             check_iface(ses, p, P, vs, Pc, obj, status, opt, iface, display)
+
+
+def unbounded_certificate(ses, P, vs, Pc, name):
+    z3 = z3mod()
+    d = [z3.Int('d%d' % j) if P.vtype[j] in 'BI' else z3.Real('d%d' % j) for j in range(P.n)]
+    cone = []
+    for coefs, const, sense in P.rows:
+        t = z3.Sum([z3.RealVal(str(c)) * d[j] for j, c in coefs.items()]) if coefs else z3.RealVal(0)
+        cone.append(t == 0 if sense == 1 else t <= 0)
+    for j in range(P.n):
+        if P.lb[j] is not None or P.vtype[j] == 'B':
+            cone.append(d[j] >= 0)
+        if P.ub[j] is not None or P.vtype[j] == 'B':
+            cone.append(d[j] <= 0)
+    cone.append(z3.Sum([z3.RealVal(str(c)) * d[j] for j, c in enumerate(P.obj)]) < 0)
+    r, _ = ses.solve(list(Pc) + cone, label=name + '/ray')
+    if r == 'sat':
+        return 'unbounded'
+    raise HarnessError('C11: member %s is declared unbounded along an integer ray but no certificate exists (%s)' % (name, r))
 
 
 def check_iface(ses, p, P, vs, Pc, obj, status, opt, iface, display):
